@@ -248,7 +248,7 @@ pub fn check_c03(tier: &str) -> i32 {
         "C03",
         tier,
         "exploration",
-        "exhaustive input enumeration: (a) AddressRange::try_from over (start,count) pairs against the closed-form predicate, (b) WriteMultiple::from over lengths 0..=2100 and 65535..=65537, (c) every request of the stated space submitted through the production client loop (TCP and RTU framing, 5 unit ids, future/callback/FfiChannel styles); every poll_write is logged and compared with the reference encoding; requests outside protocol limits must produce an error and zero bytes; (d) all sequences of up to 4 requests x outcomes {answered, exception, bad reply, timed out, connection lost, write error} on the production TcpChannelTask: every frame written is the encoding of the next request with the next transaction id. distinct = distinct wire frames / rejection classes",
+        "exhaustive input enumeration: (a) AddressRange::try_from over (start,count) pairs against the closed-form predicate, (b) WriteMultiple::from over lengths 0..=2100 and 65535..=65537, (c) every request of the stated space submitted through the production client loop (TCP and RTU framing, 5 unit ids, future/callback/FfiChannel styles); every poll_write is logged and compared with the reference encoding; requests outside protocol limits must produce an error and zero bytes; (d) all sequences of up to 4 requests x outcomes {answered, exception, bad reply, timed out, connection lost, write error, write blocked after 0/1/7/11 bytes and resumed later} on the production TcpChannelTask: every frame written is the encoding of the next request with the next transaction id. distinct = distinct wire frames / rejection classes",
     );
     let thorough = rep.thorough();
     // (a) constructor
@@ -361,15 +361,18 @@ pub fn check_c03(tier: &str) -> i32 {
     // answered with an exception, timed out, failed by a lost connection), the next frame is the
     // encoding of the next request with the next transaction id - compared byte for byte
     {
-        use crate::checks::client_sm::{explore, no_extra, Explore, SmCfg};
+        use crate::checks::client_sm::{explore, Explore, SmCfg};
         use crate::refmodel::client::{ClientModel, Ev, MStyle};
         let cfg = SmCfg { cap: 16, max_timeouts: None, retry_min: 3, retry_max: 12, handles: 1, decode: (0, 0, 0) };
         let filter = |e: &Ev, _m: &ClientModel| {
             matches!(e, Ev::ReplyOk | Ev::ReplyException | Ev::ReplyBad | Ev::AdvanceToNext | Ev::Eof | Ev::ConnectOk | Ev::WriteErrorNext) || matches!(e, Ev::Submit { handle: 0, style: MStyle::Future, .. })
         };
         let cost = |_e: &Ev| 0usize;
-        let x = Explore { prop: "C03", cfg: &cfg, depth: if thorough { 11 } else { 9 }, max_dev: 0, max_requests: 4, aspects: "W", filter: &filter, cost: &cost, extra: &no_extra };
+        let filter = |e: &Ev, m: &ClientModel| filter(e, m) || matches!(e, Ev::WriteUnblock);
+        let x = Explore { prop: "C03", cfg: &cfg, depth: if thorough { 11 } else { 9 }, max_dev: 0, max_requests: 4, aspects: "W", filter: &filter, cost: &cost, extra: &crate::checks::client_sm::write_block_extra };
+        *crate::checks::client_sm::KEEP_GOING_UNLESS.lock().unwrap() = Some("W".to_string());
         let st = explore(&x, &[vec![Ev::Enable(0), Ev::ConnectOk]]);
+        *crate::checks::client_sm::KEEP_GOING_UNLESS.lock().unwrap() = None;
         rep.phase("frames of consecutive requests (answered, exception, bad reply, timed out, connection lost, write error)", st, json!({"cfg": cfg, "depth": x.depth, "max_requests": 4}));
     }
     for c in ["transmitted", "rejected-by-channel", "rejected-at-construction", "ev:advance-to-next", "ev:reply-ok"] {
